@@ -1497,7 +1497,7 @@ func TestVerif_C22(t *testing.T) {
 			depth int
 		}
 		dq := mc.Pick(r, 3, 4)
-		ds2 := mc.Pick(r, 2, 4)
+		ds2 := mc.Pick(r, 2, 3)
 		plans := []plan{
 			{c22Cfg{Name: "fresh/buf1M", Buffer: 1 << 20}, mc.Pick(r, 3, 5)},
 			// asynchronous flush: the last flush started by the explored operation (a Commit; with write buffer 0 also a
